@@ -150,6 +150,8 @@ pub fn gen(tier: &str, seed: u64, out: &mut dyn FnMut(Value)) {
                     _ => Form::Or(Box::new(Form::Not(Box::new(f.clone()))), Box::new(var)),
                 };
                 out(case_for(&g, &mut rng, &events, &evj, "quantifier+var"));
+                let r = SRule { name: "r".into(), ops: operands(&VARS), cond: Some(g.clone()), tight: true, ..Default::default() };
+                out(json!({"op": "scenario", "rules": [r.to_json(&mut rng)], "events": evj, "tag": "quantifier+var, tightest spelling", "nt": true}));
             }
         }
     }
@@ -290,6 +292,11 @@ pub fn gen(tier: &str, seed: u64, out: &mut dyn FnMut(Value)) {
     for _ in 0..n {
         let d = 2 + rng.below(4);
         let f = random_form(&mut rng, d);
+        if rng.chance(1, 10) {
+            let r = SRule { name: "r".into(), ops: operands(&VARS), cond: Some(f.clone()), tight: true, ..Default::default() };
+            out(json!({"op": "scenario", "rules": [r.to_json(&mut rng)], "events": evj, "tag": "random, tightest spelling", "nt": true}));
+            continue;
+        }
         out(case_for(&f, &mut rng, &events, &evj, "random"));
     }
 }
